@@ -216,7 +216,7 @@ pub fn run(args: &[String]) {
                     let salg = ["ed25519", "es256", "ps256", "es384"][((vid.wrapping_mul(69069) >> 5) ^ oi) % 4];
                     // a version-1 claim (legacy ingredient assertions) where every signed ingredient is version 1 too
                     // (a directed history fixes the version with the op's "cv" field)
-                    let claim_v1 = match o["cv"].as_u64() { Some(1) => true, Some(_) => false, None => ((vid.wrapping_mul(2246822519) >> 9) ^ oi) % 3 == 0 } && ings.iter().all(|a| *a == 0 || lib[*a - 1].v1);
+                    let claim_v1 = match o["cv"].as_u64() { Some(1) => true, Some(2) => false, _ => ((vid.wrapping_mul(2246822519) >> 9) ^ oi) % 3 == 0 } && ings.iter().all(|a| *a == 0 || lib[*a - 1].v1);
                     let mut sj = settings_json();
                     if compress { sj["core"] = json!({"prefer_compress_manifests": true}); }
                     let res = catch(AssertUnwindSafe(|| -> Result<(Vec<u8>, Vec<Value>), String> {
@@ -262,7 +262,7 @@ pub fn run(args: &[String]) {
                             // every fourth signed ingredient comes in through a Reader: a scratch carrier manifest takes the asset as its
                             // ingredient from the stream, and the new builder takes over that recorded ingredient (with its manifest chain,
                             // resolved from the carrier's store) with add_ingredient_from_reader
-                            let via_reader = *a > 0 && ijv.get("validation_results").is_none() && (o["via"] == "reader" || (o["via"].is_null() && (vid + 3 * k + oi) % 4 == 1));
+                            let via_reader = *a > 0 && ijv.get("validation_results").is_none() && (o["via"] == "reader" || ((o["via"].is_null() || o["via"] == "any") && (vid + 3 * k + oi) % 4 == 1));
                             let r = if via_reader {
                                 (|| -> c2pa::Result<()> {
                                     let mut cb = Builder::from_context(ctx(&sj)).with_definition(simple_manifest_json("carrier", "image/jpeg").to_string().as_str())?;
